@@ -8,6 +8,7 @@ SegCache.tla  (SegmentUInt64Map + cache.Cache) : TLC exhaustive over writer inte
 import json
 import os
 import random
+import re
 
 import vf
 
@@ -98,6 +99,7 @@ def run(ctx, replay):
         probemap_sim(ctx, "MC_Adversarial.cfg", 4, False, num=4000, depth=25, shapes=2)
         ctx.tlc("ProbeMap", "MC_Wrap5.tla", "MC_Wrap5.cfg", timeout=3000, heap="24g")
     segcache(ctx, thorough)
+    linmap(ctx, thorough)
 
 
 SEG_MODELS = {
@@ -160,3 +162,62 @@ def segcache(ctx, thorough):
             total_traces += len(scheds)
         ctx.cov["replay"]["segcache_cap%d" % cap] = info
     ctx.cov["traces_validated_against_impl"] += total_traces
+
+
+def linmap(ctx, thorough, prefix=""):
+    """Free-running concurrent histories of the real cache.Cache judged by Trace_LinMap.tla."""
+    import json
+    trace = os.path.join(ctx.scratch, "linmap.ndjson")
+    inp = {"rounds": 200 if not thorough else 2000, "procs": 6, "ops": 5, "nk": 3, "traceOut": trace}
+    res = ctx.go_driver("./c16", "TestLinMapStress", inp, name="linmap", timeout=900)
+    ctx.take_driver_result(res, prefix + "[LinMap] ")
+    c = res.get("counters", {})
+    if c.get("overlapping_calls", 0) < inp["rounds"]:
+        raise vf.MachineryError("LinMap histories contain too few overlapping calls (%s): vacuous" % c)
+    lines = open(trace).read().splitlines()
+    ok, r = ctx.tlc_trace("SegCache", "Trace_LinMap.tla", "Trace_LinMap.cfg", trace, timeout=1800, deque=False)
+    m = re.search(r'"linmap-high-water", (\d+), (\d+)', r.out)
+    if not m:
+        raise vf.MachineryError("Trace_LinMap did not reach its postcondition\n" + "\n".join(r.out.splitlines()[-30:]))
+    hw, total = int(m.group(1)), int(m.group(2))
+    info = {"rounds": inp["rounds"], "calls": c.get("calls", 0), "overlapping_calls": c.get("overlapping_calls", 0),
+            "lines": total, "explained": min(hw - 1, total) if hw else 0, "tlc_states": r.distinct}
+    ctx.cov["replay"]["linmap"] = info
+    ctx.log("Trace_LinMap: %d of %d lines explained, %d states" % (info["explained"], total, r.distinct))
+    if ok:
+        ctx.cov["traces_validated_against_impl"] += inp["rounds"]
+        ctx.cov["evaluations"] += c.get("calls", 0)
+        # binding: a falsified response must be rejected
+        objs = [json.loads(x) for x in lines]
+        # (a flipped call result may still be linearizable next to concurrent calls; a quiescent length is not)
+        for o in objs:
+            if o["t"] == "q":
+                o["len"] += 1
+                break
+        else:
+            raise vf.MachineryError("tamper test: no quiescent line in the history")
+        bad = os.path.join(ctx.scratch, "linmap_tampered.ndjson")
+        with open(bad, "w") as f:
+            for o in objs:
+                f.write(json.dumps(o) + "\n")
+        okb, _ = ctx.tlc_trace("SegCache", "Trace_LinMap.tla", "Trace_LinMap.cfg", bad, timeout=1800, deque=False)
+        if okb:
+            raise vf.MachineryError("tamper test: Trace_LinMap accepted a falsified history (binding lost)")
+        info["tamper_rejected"] = True
+        return
+    # the line that could not be consumed and its round
+    k = min(hw, total)
+    stuck = json.loads(lines[k - 1])
+    rnd = stuck.get("round")
+    rlines = [x for x in lines if json.loads(x).get("round") == rnd]
+    head = json.loads(rlines[0])
+    if stuck["t"] == "q":
+        what = ("after the writers stopped, Get / iteration / Len disagree with every order in which the recorded calls "
+                "could have taken effect: get=%s iter=%s len=%s" % (stuck.get("get"), stuck.get("iter"), stuck.get("len")))
+        key = "linmap/quiescent"
+    else:
+        what = ("the result of %s by goroutine %s (ok=%s v=%s) is not explained by any placement of the concurrent calls: "
+                "the table did not behave as a map" % (stuck.get("op"), stuck.get("p"), stuck.get("ok"), stuck.get("v")))
+        key = "linmap/" + str(stuck.get("op"))
+    ctx.violation(key, "%s[LinMap %s cap=%s] %s" % (prefix, head.get("kind"), head.get("cap"), what),
+                  {"driver": "linmap", "round": rnd, "kind": head.get("kind"), "history": rlines, "seed": ctx.seed})
